@@ -259,6 +259,49 @@ func runFilter(cfg Cfg) {
 				s.Count("dump")
 			}
 		}
+		if h%4 == 3 {
+			// drain: remove every range that is still present, then probe again - an emptied filter
+			// (in either mode) contains nothing, and later additions start from there
+			var left []pfx
+			for p := range spec {
+				left = append(left, p)
+			}
+			sort.Slice(left, func(i, j int) bool {
+				if left[i].ones != left[j].ones {
+					return left[i].ones < left[j].ones
+				}
+				return left[i].net < left[j].net
+			})
+			for _, p := range left {
+				ipb, mb := []byte(ip4(p.net)), []byte(net.CIDRMask(p.ones, 32))
+				err := f.Remove(&net.IPNet{IP: ipb, Mask: mb})
+				s.Line("rem "+hx(ipb)+" "+hx(mb), errName(err)+" "+filterBrief(f))
+				hist = append(hist, filterOp{"rem", hx(ipb), hx(mb)})
+				delete(spec, p)
+			}
+			s.Count("history.drained")
+			for i := 0; i < 40 && len(pool) > 0; i++ {
+				p := Pick(r, pool)
+				a := p.net&maskN(p.ones) + uint32(r.U64())&^maskN(p.ones)
+				if i%10 == 9 { // re-add one range and look it up
+					ipb, mb := []byte(ip4(p.net)), []byte(net.CIDRMask(p.ones, 32))
+					f.Add(&net.IPNet{IP: ipb, Mask: mb})
+					s.Line("add "+hx(ipb)+" "+hx(mb), "nil "+filterBrief(f))
+					hist = append(hist, filterOp{"add", hx(ipb), hx(mb)})
+					spec[pfx{p.net & maskN(p.ones), p.ones}] = true
+				}
+				got, want := f.Contains(ip4(a)), spec.mem(a)
+				s.Line("has "+hx(ip4(a)), fmt.Sprint(got))
+				s.Evaluations++
+				if got != want {
+					hist2 := append(append([]filterOp{}, hist...), filterOp{"has", hx(ip4(a)), ""})
+					if len(s.Violations) < 3 {
+						hist2 = ddmin(hist2, filterHistoryFails)
+					}
+					s.Violate("membership", fmt.Sprintf("after draining the filter Contains(%v) = %v, prefix-set says %v", ip4(a), got, want), hist2)
+				}
+			}
+		}
 		s.Line("dump", filterDump(f))
 		st := f.VerifState()
 		if st.MapsMode {
